@@ -119,6 +119,15 @@ func (fr *Frame) execCall(st *State, cc *ssa.CallCommon, instr ssa.Instruction, 
 		fr.top.note("calling a context cancel function is assumed to have no effect on the program's heap")
 		return fr.freshResults(st, cc.Signature(), "cancel")
 	}
+	if root := fr.hookRoot(); root != nil {
+		d := fr.describe(cc.Value)
+		for _, n := range root.fc.DynPure {
+			if d == n || strings.HasSuffix(d, "."+n) {
+				fr.top.trusted["calls through "+n+" in "+shortKey(root.fc.Key)+" are assumed not to modify the modelled heap (callback supplied by the caller)"] = true
+				return fr.freshResults(st, cc.Signature(), "dyn")
+			}
+		}
+	}
 	fr.top.note("call of unknown function value " + fr.describe(cc.Value) + " in " + fr.fn.Name() + ": heap havocked")
 	return fr.havocCall(st, cc.Signature(), "dyn")
 }
@@ -754,8 +763,25 @@ func hookName(n string) string {
 	return n
 }
 
+// hookRoot: the frame whose contract's hooks see the calls made in fr: fr itself when it is the function
+// under verification, or that function when fr is a callee expanded because its contract says "inline".
+func (fr *Frame) hookRoot() *Frame {
+	f := fr
+	for f.parent != nil {
+		if f.fc == nil || !f.fc.Inline {
+			return nil
+		}
+		f = f.parent
+	}
+	if f.fc == nil {
+		return nil
+	}
+	return f
+}
+
 func (fr *Frame) callHooks(st *State, name string, args []Val, pos token.Pos) {
-	if fr.parent != nil || fr.fc == nil {
+	fr = fr.hookRoot()
+	if fr == nil {
 		return
 	}
 	name = hookName(name)
@@ -782,7 +808,8 @@ func (fr *Frame) callHooks(st *State, name string, args []Val, pos token.Pos) {
 }
 
 func (fr *Frame) ghostCallUpdates(st *State, name string, args []Val, res []Val, after bool) {
-	if fr.parent != nil || fr.fc == nil {
+	fr = fr.hookRoot()
+	if fr == nil {
 		return
 	}
 	name = hookName(name)
